@@ -1,0 +1,22 @@
+//go:build verif
+
+package fclient
+
+// Contracts for gvc (comment-only; compiled only with -tags verif and then adds no code).
+
+//@ func inRange
+//@   property C16
+//@   ensures exists: result <==> inRangeSpec(str(ip), CIDRs)
+//@   loop 1: invariant 0 <= i && i <= len(CIDRs)
+//@   loop 1: invariant forall j int :: 0 <= j && j < i ==> !(cidrOK(CIDRs[j]) && netContains(cidrNet(CIDRs[j]), str(ip)))
+//@   assigns nothing
+
+//@ func isAllowed
+//@   property C16
+//@   ensures policy: result <==> isAllowedSpec(str(ip), allowCIDRs, denyCIDRs)
+//@   assigns nothing
+
+//@ func allowDenyNetworksControl$1
+//@   property C16
+//@   ensures control: (err == nil) <==> ((network == "tcp4" || network == "tcp6") && splitOK(address) && ipOK(splitHost(address)) && isAllowedSpec(ipBytes(splitHost(address)), allowNetworks, denyNetworks))
+//@   assigns nothing
